@@ -63,7 +63,7 @@ def run(cmd, timeout, mem_kb=None, cwd=None, log=None):
     return rc, out, wall
 
 
-def codegen(crate_dir, target_dir, log, extra_flags=(), timeout=1500):
+def codegen(crate_dir, target_dir, log, extra_flags=(), timeout=1500, harnesses=None):
     """cargo kani --only-codegen for every proof harness of the crate. Returns
     {pretty_name: meta} where meta has symtab, restrictions, unwind, stubs."""
     lock_src = "/repo/Cargo.lock"
@@ -71,6 +71,12 @@ def codegen(crate_dir, target_dir, log, extra_flags=(), timeout=1500):
         shutil.copy(lock_src, os.path.join(crate_dir, "Cargo.lock"))
     cmd = ["cargo", "kani", "--target-dir", target_dir, "--only-codegen",
            "-Z", "restrict-vtable", "-Z", "stubbing", *extra_flags]
+    if harnesses:
+        # only the harnesses this run needs (codegen costs ~5 s per harness)
+        for h in sorted(set(harnesses)):
+            cmd += ["--harness", h.split("::")[-1]]
+        cmd += ["--exact"] if False else []
+    t_start = time.time()
     rc, out, wall = run(cmd, timeout, cwd=crate_dir, log=log)
     if rc != 0:
         raise Inconclusive(f"kani codegen failed for {crate_dir} (rc={rc}); see {log}\n" + "\n".join((out or "").splitlines()[-25:]))
@@ -84,6 +90,8 @@ def codegen(crate_dir, target_dir, log, extra_flags=(), timeout=1500):
             if not os.path.exists(g):
                 continue
             mt = os.path.getmtime(g)
+            if mt < t_start - 5:
+                continue  # artefact of an earlier build with another harness selection
             if h["pretty_name"] in newest and newest[h["pretty_name"]] > mt:
                 continue
             newest[h["pretty_name"]] = mt
